@@ -38,9 +38,9 @@ var callContexts = []string{"%s", "@ | %s", "[%s]", "{x: %s}", "[@][*].%s", "[@]
 func checkC09(r *harness.Run) harness.Coverage {
 	r.Rule = "for each of the 26 built-ins every well-typed argument tuple from a typed universe (numbers {-1.5,-1,-0.5,0,0.5,1,2,2.5}; 12 strings incl. multi-byte and numeric-looking; all arrays up to the length bound over 4 numbers / 4 strings incl. duplicates and all orders; arrays of {k,t} objects with tied keys and distinguishable tags; objects with colliding keys; heterogeneous arrays), supplied through document fields, standalone and in 10 contexts; to_number over all strings of <=3 symbols from {0,1,-,+,.,e,x,_,space,a,inf,nan}. Oracle: reference function definitions; to_string by decode-back; to_number per gap G5 (JSON number => that number, no digit => null, otherwise null or finite). Non-trivial = reference outcome non-null or error; distinct by (expression, document)"
 	r.Assumptions = []string{"function semantics: model/eval.go from the JMESPath function specification", "value universe bounded as stated; numbers are dyadic so sums are exact"}
-	maxLen := 4
+	maxLen := 6
 	if r.Thorough() {
-		maxLen = 5
+		maxLen = 7
 	}
 	nums := univ.Js(`-1.5`, `-1`, `-0.5`, `0`, `0.5`, `1`, `2`, `2.5`)
 	strs := univ.Js(`""`, `"a"`, `"b"`, `"ab"`, `"ba"`, `"é"`, `"日本"`, `"a😀"`, `"1"`, `"1.5"`, `"-2e1"`, `"x1"`, `"x\ufffdy"`, `"\\u003c<&"`)
